@@ -106,9 +106,9 @@ def generate(rng, index, cfg):
         flags += ["--output-strategy", rng.choice(OUT_STRATS)]
     if rng.random() < 0.15:
         flags += ["--no-ignore-transients"]
-    if rng.random() < 0.12:
+    if rng.random() < 0.22:
         flags += ["--log-level", rng.choice(["DEBUG", "DEBUG", "ERROR"])]
-    out = "inplace" if entry == "driver" else rng.choice(["file_absent", "file_existing", "file_existing", "stdout"])
+    out = "inplace" if entry == "driver" else rng.choice(["file_absent", "file_existing", "file_existing", "stdout", "stdout"])
     decisions = entry == "nbmerge" and rng.random() < 0.15
     sc = {"entry": entry, "shape": shape, "triple": triple, "flags": flags, "out": out, "decisions": decisions,
           "helpers": rng.choice([["git", "diff3", "diff"], ["git", "diff3", "diff"], ["diff3", "diff"], ["git"], []]),
